@@ -1,78 +1,17 @@
 /-
-  Bridge theorems, NTT_iters part 1: the butterfly loops of the TRANSLATED `NTT_Goldilocks::NTT_iters` (Gen/NttGen.lean) on the
-  block of the buffer `a` are the hand model's `bflyStep ⊂ bfly ⊂ stageStep ⊂ stage ⊂ batchStages` (Model/Ntt.lean) on that
-  buffer.  64-bit index arithmetic: every run-time value is `BitVec.ofNat 64 n`; sums and products commute with `ofNat`
-  unconditionally, quotients / remainders / masks / shifts and the final `.toNat` need the (small) bounds.
+  Bridge theorems, NTT_iters part 1, BY-NAME forms (first round; used by Lemmas/BridgeNttPass.lean → Lemmas/ParGenNtt.lean for
+  C12): the butterfly loops of the TRANSLATED `NTT_Goldilocks::NTT_iters` stated about the lifted loop bodies with their
+  parameter lists.  The bridge theorems of C03 / C04 / C05 / C19 do not go through this file (Lemmas/BridgeNttStageG.lean,
+  Lemmas/BridgeNttItersTop.lean).
 -/
-import GoldilocksVerif.Lemmas.BridgeNttRevPerm
+import GoldilocksVerif.Lemmas.BridgeNttStageG
 
 namespace GoldilocksVerif.BridgeNtt
 open GoldilocksVerif Gen.NttGen
 
-/-! ### the object: generated state + heap represent the hand model's `Obj` -/
-
-/-- the generated object state `self` with the heap `hp` represents the hand model's object `o` -/
-structure ObjRep (hp : Heap) (obj : NTT_Goldilocks) (o : Model.Ntt.Obj) : Prop where
-  hs : obj.s.toNat = o.s
-  roots : hp.block obj.roots.blk = o.roots
-  roots_off : obj.roots.off = 0
-  pti : hp.block obj.powTwoInv.blk = o.powTwoInv
-  pti_off : obj.powTwoInv.off = 0
-  ext : obj.extension = (o.extension : Int)
-  cache : match o.rcache with
-    | none => obj.r = Ptr.null
-    | some (n, r, r_) => obj.r ≠ Ptr.null ∧ obj.r_N.toNat = n ∧ hp.block obj.r.blk = r ∧ obj.r.off = 0 ∧
-        hp.block obj.r_.blk = r_ ∧ obj.r_.off = 0
-
-theorem bind_some_id {α : Type} (x : Option α) : (x.bind fun a => some a) = x := by cases x <;> rfl
-
-/-! ### `ofNat` arithmetic -/
-
-abbrev bv (n : Nat) : BitVec 64 := BitVec.ofNat 64 n
-
-theorem bv_self (x : BitVec 64) : x = bv x.toNat := by simp [bv]
-theorem bv_toNat (n : Nat) (h : n < 2 ^ 64) : (bv n).toNat = n := ofNat_toNat_lt n h
-theorem bv_add (a b : Nat) : bv a + bv b = bv (a + b) := (BitVec.ofNat_add a b).symm
-theorem bv_mul (a b : Nat) : bv a * bv b = bv (a * b) := (BitVec.ofNat_mul a b).symm
-theorem bv_div (a b : Nat) (ha : a < 2 ^ 64) (hb : b < 2 ^ 64) : bv a / bv b = bv (a / b) := by
-  apply BitVec.eq_of_toNat_eq
-  rw [BitVec.toNat_udiv, bv_toNat a ha, bv_toNat b hb, bv_toNat _ (Nat.lt_of_le_of_lt (Nat.div_le_self a b) ha)]
-theorem bv_mod (a b : Nat) (ha : a < 2 ^ 64) (hb : b < 2 ^ 64) : bv a % bv b = bv (a % b) := by
-  apply BitVec.eq_of_toNat_eq
-  rw [BitVec.toNat_umod, bv_toNat a ha, bv_toNat b hb, bv_toNat _ (Nat.lt_of_le_of_lt (Nat.mod_le a b) ha)]
-theorem bv_mask (j t : Nat) (hj : j < 2 ^ 64) (ht : t < 64) : bv j &&& bv (2 ^ t - 1) = bv (j % 2 ^ t) := by
-  have h2 : 2 ^ t < 2 ^ 64 := Nat.pow_lt_pow_right (by omega) ht
-  apply BitVec.eq_of_toNat_eq
-  rw [BitVec.toNat_and, bv_toNat j hj, bv_toNat _ (by omega), Nat.and_two_pow_sub_one_eq_mod,
-    bv_toNat _ (Nat.lt_of_le_of_lt (Nat.mod_le _ _) hj)]
-theorem bv_shr (j t : Nat) (hj : j < 2 ^ 64) : bv j >>> t = bv (j / 2 ^ t) := by
-  apply BitVec.eq_of_toNat_eq
-  rw [BitVec.toNat_ushiftRight, bv_toNat j hj, Nat.shiftRight_eq_div_pow,
-    bv_toNat _ (Nat.lt_of_le_of_lt (Nat.div_le_self _ _) hj)]
-theorem bv_one : (1#64 : BitVec 64) = bv 1 := rfl
-theorem bv_two : (2#64 : BitVec 64) = bv 2 := rfl
-
-/-- `(u_int64_t)(1 << t)` computed on `int`, t ≤ 30 -/
-theorem shl_one (t : Nat) (ht : t ≤ 30) : I32.toU64 (I32.shl (1 : Int) t) = bv (2 ^ t) := by
-  have h : (2 : Nat) ^ t ≤ 2 ^ 30 := Nat.pow_le_pow_right (by omega) ht
-  have hw : I32.shl (1 : Int) t = ((2 ^ t : Nat) : Int) := by
-    have e : ((2 : Int) ^ t) = (((2 : Nat) ^ t : Nat) : Int) := by norm_cast
-    unfold I32.shl I32.wrap
-    rw [Int.one_mul, e]
-    generalize (2 : Nat) ^ t = n at h ⊢
-    have hn : n ≤ 1073741824 := h
-    unfold Int.bmod
-    have hm : ((n : Int) % ((4294967296 : Nat) : Int)) = (n : Int) := by
-      apply Int.emod_eq_of_lt <;> omega
-    rw [hm]
-    have hlt : (n : Int) < (((4294967296 : Nat) : Int) + 1) / 2 := by omega
-    rw [if_pos hlt]
-  rw [hw]
-  simp only [I32.toU64, BitVec.ofInt_natCast, bv]
-
 /-! ### one butterfly: the loop over the columns -/
 
-theorem bfly_body (A : Nat) (o1 o2 nc : Nat) (w : BitVec 64) (h1 : o1 + nc < 2 ^ 64) (h2 : o2 + nc < 2 ^ 64)
+by_name_form theorem bfly_body (A : Nat) (o1 o2 nc : Nat) (w : BitVec 64) (h1 : o1 + nc < 2 ^ 64) (h2 : o2 + nc < 2 ^ 64)
     (k : Nat) (hk : k < nc) (X : Heap) (hA : A < X.size) :
     NTT_NTT_iters_loop1 ⟨A, 0⟩ (bv o1) (bv o2) w k X =
       some (X.setBlock A (Model.Ntt.bflyStep w o1 o2 k (X.block A))) := by
@@ -86,7 +25,7 @@ theorem bfly_body (A : Nat) (o1 o2 nc : Nat) (w : BitVec 64) (h1 : o1 + nc < 2 ^
     rw [bv_add, bv_toNat _ (by omega)]
   rw [e1, e2, Heap.block_setBlock_same _ _ _ hA, Heap.setBlock_setBlock]
 
-theorem bfly_loop (A : Nat) (o1 o2 nc : Nat) (w : BitVec 64) (h1 : o1 + nc < 2 ^ 64) (h2 : o2 + nc < 2 ^ 64)
+by_name_form theorem bfly_loop (A : Nat) (o1 o2 nc : Nat) (w : BitVec 64) (h1 : o1 + nc < 2 ^ 64) (h2 : o2 + nc < 2 ^ 64)
     (X : Heap) (hA : A < X.size) :
     Loop.rangeM 0 (bv nc).toNat 1 X (NTT_NTT_iters_loop1 ⟨A, 0⟩ (bv o1) (bv o2) w) =
       some (X.setBlock A (Model.Ntt.bfly (X.block A) w o1 o2 nc)) := by
@@ -95,14 +34,9 @@ theorem bfly_loop (A : Nat) (o1 o2 nc : Nat) (w : BitVec 64) (h1 : o1 + nc < 2 ^
     (fun k Y _ hk hs _ => bfly_body A o1 o2 nc w h1 h2 k hk Y (by omega))]
   rfl
 
-theorem bv_sub (a b : Nat) (h : b ≤ a) (ha : a < 2 ^ 64) : bv a - bv b = bv (a - b) := by
-  apply BitVec.eq_of_toNat_eq
-  rw [BitVec.toNat_sub, bv_toNat a ha, bv_toNat b (by omega), bv_toNat _ (by omega)]
-  omega
-
 /-! ### one butterfly of one stage: offsets, twiddle index, root -/
 
-theorem stageStep_body (X : Heap) (self : NTT_Goldilocks) (o : Model.Ntt.Obj) (A : Nat) (hA : A < X.size)
+by_name_form theorem stageStep_body (X : Heap) (self : NTT_Goldilocks) (o : Model.Ntt.Obj) (A : Nat) (hA : A < X.size)
     (hrep : ObjRep X self o)
     (S si b B NC RS RE RB N i : Nat)
     (hN30 : N ≤ 2 ^ 30) (hbB : b * B ≤ N) (hiN : i ≤ N) (hNNC : N * NC < 2 ^ 64)
@@ -181,44 +115,7 @@ theorem stageStep_body (X : Heap) (self : NTT_Goldilocks) (o : Model.Ntt.Obj) (A
   simp only [bv_add, bv_mul, bind_some_id]
   rw [eroot]
 
-/-- the blocks the object owns are other blocks than `A` -/
-def ObjFrame (obj : NTT_Goldilocks) (A : Nat) : Prop :=
-  A ≠ obj.roots.blk ∧ A ≠ obj.powTwoInv.blk ∧ A ≠ obj.r.blk ∧ A ≠ obj.r_.blk
-
-/-- a heap that differs from `X0` in blocks the object does not own still represents the object -/
-theorem ObjRep.frame {X0 X : Heap} {obj : NTT_Goldilocks} {o : Model.Ntt.Obj} (h : ObjRep X0 obj o)
-    (hfr : ∀ c, c = obj.roots.blk ∨ c = obj.powTwoInv.blk ∨ c = obj.r.blk ∨ c = obj.r_.blk → X.block c = X0.block c) :
-    ObjRep X obj o := by
-  refine ⟨h.hs, ?_, h.roots_off, ?_, h.pti_off, h.ext, ?_⟩
-  · rw [hfr _ (Or.inl rfl)]; exact h.roots
-  · rw [hfr _ (Or.inr (Or.inl rfl))]; exact h.pti
-  · have hc := h.cache
-    cases hrc : o.rcache with
-    | none => rw [hrc] at hc; exact hc
-    | some v =>
-      obtain ⟨n, r, r_⟩ := v
-      rw [hrc] at hc
-      obtain ⟨c1, c2, c3, c4, c5, c6⟩ := hc
-      refine ⟨c1, c2, ?_, c4, ?_, c6⟩
-      · rw [hfr _ (Or.inr (Or.inr (Or.inl rfl)))]; exact c3
-      · rw [hfr _ (Or.inr (Or.inr (Or.inr rfl)))]; exact c5
-
-theorem ObjRep.frame1 {X0 X : Heap} {obj : NTT_Goldilocks} {o : Model.Ntt.Obj} {A : Nat} (h : ObjRep X0 obj o)
-    (hA : ObjFrame obj A) (hfr : ∀ c, c ≠ A → X.block c = X0.block c) : ObjRep X obj o := by
-  obtain ⟨a1, a2, a3, a4⟩ := hA
-  apply h.frame
-  rintro c (rfl | rfl | rfl | rfl)
-  · exact hfr _ (fun e => a1 e.symm)
-  · exact hfr _ (fun e => a2 e.symm)
-  · exact hfr _ (fun e => a3 e.symm)
-  · exact hfr _ (fun e => a4 e.symm)
-
-theorem row_lt (U M i : Nat) (hU : 0 < U) (hi : i < M * U) : i / U * (U * 2) + i % U + U < M * (U * 2) := by
-  have hq : i / U < M := Nat.div_lt_of_lt_mul (by rw [Nat.mul_comm]; exact hi)
-  have hr : i % U < U := Nat.mod_lt i hU
-  have := mul_le_of_lt _ _ (U * 2) hq
-  omega
-
+by_name_form
 /-- one butterfly of one stage = the hand model's `stageStep` -/
 theorem stageStep_gen (X : Heap) (self : NTT_Goldilocks) (o : Model.Ntt.Obj) (A : Nat) (hA : A < X.size)
     (hrep : ObjRep X self o)
@@ -237,6 +134,7 @@ theorem stageStep_gen (X : Heap) (self : NTT_Goldilocks) (o : Model.Ntt.Obj) (A 
     omega) X hA]
   rfl
 
+by_name_form
 /-- one stage of one batch = the hand model's `stage` -/
 theorem stage_gen (X : Heap) (self : NTT_Goldilocks) (o : Model.Ntt.Obj) (A : Nat) (hA : A < X.size)
     (hrep : ObjRep X self o) (hfr : ObjFrame self A)
@@ -269,9 +167,7 @@ theorem stage_gen (X : Heap) (self : NTT_Goldilocks) (o : Model.Ntt.Obj) (A : Na
         (by omega) hNNC (by rw [← hB] at hr; omega) hRB hRS hRE hS1 hSs hos)]
   rfl
 
-theorem pow_stage (sInc si : Nat) (h : si < sInc) : 2 ^ sInc = 2 ^ (sInc - si - 1) * (2 ^ si * 2) := by
-  rw [← Nat.pow_succ, ← Nat.pow_add]; congr 1; omega
-
+by_name_form
 /-- all stages of one pass on one batch = the hand model's `batchStages` -/
 theorem batchStages_gen (X : Heap) (self : NTT_Goldilocks) (o : Model.Ntt.Obj) (A : Nat) (hA : A < X.size)
     (hrep : ObjRep X self o) (hfr : ObjFrame self A)
